@@ -298,12 +298,24 @@ package martian
 
 // The writers of the response head and body: a failure is remembered (C12:
 // after a failed write nothing more is sent on the connection).
-//@ ghost ivar wErr() bool
-//@ func (*bufio.ReadWriter).Flush, (*bufio.Writer).Flush, writeConnectOKResponse, writeHeaderOnlyResponse
+// (wErr is declared in specs/io.spec)
+//@ func (*bufio.ReadWriter).Flush, (*bufio.Writer).Flush, writeConnectOKResponse
 //@ trusted
 //@ modifies *, wErr()
 //@ preserves http.Response.StatusCode http.Response.Close http.Response.Request http.Request.Method http.Request.Close http.Response.Header http.Request.Header http.Request.URL http.Request.Body http.Response.Body proxyConn.* Proxy.* bufio.ReadWriter.* maps(http.Header) http.Request.ProtoMajor http.Request.ProtoMinor http.Response.ProtoMajor http.Response.ProtoMinor http.Response.ContentLength http.Response.TransferEncoding
 //@ ensures wErr() == (old(wErr()) || result != nil)
+
+// writeHeaderOnlyResponse (verified): the head of a HEAD/1xx/204/304 response
+// is complete - every line written is terminated (the Trailer announcement
+// included) and exactly one empty line ends it.
+//@ func writeHeaderOnlyResponse
+//@ property C02 C12
+//@ requires res != nil
+//@ modifies pkg(bytes), elems(byte), sbStr, wErr(), openLine(w), blankN(w)
+//@ ensures wErr() == (old(wErr()) || result != nil)
+//@ ensures result == nil && !old(openLine(w)) ==> !openLine(w) && blankN(w) == old(blankN(w)) + 1
+//@ loop 0
+//@   invariant openLine(w) && blankN(w) == old(blankN(w)) && wErr() == old(wErr())
 
 // (serialisation by net/http: chunked iff the response says so at that moment)
 //@ ghost ivar wroteTE() int
